@@ -246,6 +246,39 @@ def run_real(sessions, nworkers=None, timeout=900, full=False):
     return results
 
 
+def run_loop(sessions, timeout=900):
+    """sessions through the real read-eval loop in process (`vh loop`): [{id, lines, doout, stdin}] -> {id: result}"""
+    vh = build_harness()
+    n = min(NCPU, max(1, len(sessions)))
+    chunks = [sessions[i::n] for i in range(n)]
+    procs = []
+    for ch in chunks:
+        inp = "\n".join(json.dumps(x) for x in ch) + "\n"
+        procs.append((ch, subprocess.Popen([vh, "loop"], stdin=subprocess.PIPE, stdout=subprocess.PIPE, stderr=subprocess.PIPE, text=True), inp))
+    out = {}
+    for ch, p, inp in procs:
+        try:
+            so, se = p.communicate(inp, timeout=timeout)
+        except subprocess.TimeoutExpired:
+            p.kill()
+            raise Infra("vh loop worker timeout")
+        for line in so.splitlines():
+            try:
+                o = json.loads(line)
+            except Exception:
+                continue
+            out[o["id"]] = o
+        for x in ch:
+            if x["id"] not in out:
+                # the worker died (os.Exit from the program, fatal runtime error): everything after it in this chunk is rerun alone
+                out[x["id"]] = {"id": x["id"], "kind": "crash", "msg": (se or "")[-300:], "out": "", "residue": {}}
+                rest = [y for y in ch if y["id"] not in out]
+                if rest:
+                    out.update(run_loop(rest, timeout))
+                break
+    return out
+
+
 # ------------------------------------------------------------------ known findings
 
 def load_findings():
